@@ -16,7 +16,7 @@ rc=0
 for set in $SETS; do
   for d in $R/$set/refactor-*.diff; do
     n=$(basename "$d" .diff)
-    git -C "$W" checkout -q -- . ; git -C "$W" clean -qfd
+    git -C "$W" reset -q --hard HEAD; git -C "$W" clean -qfd
     if ! git -C "$W" apply "$d" 2>/dev/null && ! git -C "$W" apply --3way "$d" >/dev/null 2>&1; then echo "== $set $n: patch does not apply (tree moved on)"; continue; fi
     out=$(echo ${PROPS:-$(seq -f "C%02g" 1 20)} | tr " " "\n" | xargs -P 10 -I{} sh -c "/verif/bin/oxiacheck -property {} -tier quick -repo $W -verif $S 2>&1 | grep 'VIOLATED\|UNDECIDED\|^ERROR\|cannot load' | sed 's/^/{}: /'" | cut -c1-330)
     if [ -n "$out" ]; then echo "== $set $n ALARMS"; echo "$out"; rc=1; else echo "== $set $n quiet"; fi
